@@ -33,6 +33,15 @@ ASSUMPTIONS = [
 ]
 
 FILE_FAULTS = ["missing", "directory", "dangling-symlink", "unreadable"]
+# faults that need a base rule whose verdict DEPENDS on the faulted entry (a silently ignored value must flip 'found' to 'not found'):
+# a run of two instructions asked for with times 2, a $deref, an instruction with two described operands, a macro use with times
+SPECIAL_BASE_FAULTS = (
+    [f"times-{t}-{w}" for t in ("str", "float", "list", "null") for w in ("sibling", "group", "inside")]
+    + ["times-neg-on-macro-use", "times-inverted-on-macro-use", "times-str-on-macro-use"]
+    + ["deref-main-reg-null", "deref-offset-null", "deref-index-null"]
+    + [f"{g}-operand" for g in ("empty-$and", "empty-$or", "empty-$and_any_order", "empty-$not", "not-2-args", "not-3-args")]
+    + ["not-2-args-deref-field", "empty-$or-deref-field"]
+)
 RULE_FAULTS = (
     ["pattern-file-" + f for f in FILE_FAULTS]
     + ["yaml-broken", "pattern-missing", "pattern-null", "pattern-scalar", "pattern-int", "pattern-mapping", "config-null", "config-scalar", "config-list",
@@ -47,10 +56,13 @@ RULE_FAULTS = (
        "undefined-macro-key-times-file-defs", "undefined-macro-key-operands-extra-file",
        "undefined-macro-in-last-macro-body", "undefined-macro-in-first-macro-body-extra-file",
        "macro-pattern-int", "macro-pattern-null", "macro-pattern-missing", "macro-name-missing", "macro-entry-scalar", "macro-pattern-int-extra-file"]
+    + SPECIAL_BASE_FAULTS
 )
 INPUT_FAULTS = ["input-file-" + f for f in FILE_FAULTS] + ["input-file-utf16"]
 BINARY_FAULTS = ["objdump-absent", "objdump-exit1", "objdump-exit3", "objdump-signal", "objdump-half-then-fail", "objdump-banner-then-fail", "sections-all-absent", "archive-unreadable-member"]
-FAULTS = {"assembly": RULE_FAULTS + INPUT_FAULTS, "binary": RULE_FAULTS + INPUT_FAULTS + BINARY_FAULTS}
+# rule faults whose base rule is a fixed text listing (the verdict must depend on the faulted entry) are assembly-mode cells only
+ASSEMBLY_ONLY = set(SPECIAL_BASE_FAULTS) | {"cfg-valid-addr-range-unquoted-bounds", "cfg-valid-addr-range-falsy"}
+FAULTS = {"assembly": RULE_FAULTS + INPUT_FAULTS, "binary": [f for f in RULE_FAULTS if f not in ASSEMBLY_ONLY] + INPUT_FAULTS + BINARY_FAULTS}
 FLOORS = {}
 
 
@@ -110,6 +122,42 @@ def inject_rule_fault(fault, doc, pos, garbage):
             return None, raw, None
         except Exception:  # noqa: BLE001
             return None, raw, None
+    if fault in SPECIAL_BASE_FAULTS:
+        if fault.startswith("times-"):
+            kind = fault.split("-")[1]
+            bad = {"str": ["2", "'2'", "two"], "float": [2.0, 2.5, -1.5], "list": [[2], [2, 2], []], "null": [None], "neg": [-2], "inverted": [{"min": 3, "max": 1}]}[kind]
+            bad = bad[pos % len(bad)]
+            it = pat[1]
+            if fault.endswith("-on-macro-use"):
+                spell = pos // 3 % 3
+                pat[1] = {"@yrun_": {"times": bad}} if spell == 0 else {"@yrun_": [], "times": bad} if spell == 1 else {"times": bad, "@yrun_": []}
+            elif fault.endswith("-inside"):
+                pat[1] = {"nop": {"times": bad}}
+            else:
+                it = dict(it)
+                it["times"] = bad
+                if pos // 3 % 2:
+                    it = {"times": bad, **{k_: v_ for k_, v_ in it.items() if k_ != "times"}}
+                pat[1] = it
+            return doc, None, None
+        if fault.startswith("deref-"):
+            key = {"deref-main-reg-null": "main_reg", "deref-offset-null": "constant_offset", "deref-index-null": "register_multiplier"}[fault]
+            pat[0]["mov"][0]["$deref"][key] = None
+            return doc, None, None
+        arg1, arg2 = ["5", "rax"] if pos % 2 == 0 else ["0x5", "%rax"]
+        group = {"empty-$and-operand": {"$and": []}, "empty-$or-operand": {"$or": []}, "empty-$and_any_order-operand": {"$and_any_order": []}, "empty-$not-operand": {"$not": []},
+                 "not-2-args-operand": {"$not": [arg1, arg2]}, "not-3-args-operand": {"$not": [arg1, arg2, "zz"]}}.get(fault)
+        if group is not None:
+            # at the first operand, or under an operand-level $or / $and
+            where = pos // 2 % 3
+            node = group if where == 0 else {"$or": [group, "zz"]} if where == 1 else {"$and": [group]}
+            pat[0] = {"add": [node, "rax"] if list(group)[0] != "$not" or where else [node, "rax"]}
+            return doc, None, None
+        if fault == "not-2-args-deref-field":
+            pat[1]["mov"][0]["$deref"]["main_reg"] = [{"$not": ["rbx", "rcx"]}]
+        else:
+            pat[1]["mov"][0]["$deref"]["main_reg"] = [{"$or": []}]
+        return doc, None, None
     if fault == "pattern-missing":
         del doc["pattern"]
     elif fault == "pattern-null":
@@ -323,7 +371,31 @@ def evaluate(case):
         input_path = sc.write("c17.s", render(att_view(L)))
         pattern = [{"call": ["valid_addr"]}]
         base_cfg = {"valid_addr_range": {"min": f"0x{lo:x}", "max": f"0x{hi:x}"}}
-    doc = jasm_io.make_doc(pattern, config=base_cfg)
+    base_macros = None
+    if fault in SPECIAL_BASE_FAULTS:
+        if binary:
+            ev.tags.append("fault-not-applicable-here")
+            return ev
+        a0 = [0x10, 0x401000, 0xadd0][case["pos"] % 3]
+        if fault.startswith("times-"):
+            L = [[format(a0, "x"), "push", ["%rbp"], ["%rbp"]], [format(a0 + 1, "x"), "nop", [], []], [format(a0 + 2, "x"), "nop", [], []], [format(a0 + 3, "x"), "ret", [], []]]
+            if fault.endswith("-on-macro-use"):
+                pattern = ["push", {"@yrun_": {"times": 2}}, "ret"]
+                base_macros = [{"name": "@yrun_", "pattern": ["nop"]}]
+            elif fault.endswith("-group"):
+                pattern = ["push", {"$and": ["nop"], "times": 2}, "ret"]
+            elif fault.endswith("-sibling"):
+                pattern = ["push", {"nop": [], "times": 2}, "ret"]
+            else:
+                pattern = ["push", {"nop": {"times": 2}}, "ret"]
+        elif fault.startswith("deref-"):
+            L = [[format(a0, "x"), "mov", ["0x8(%rax,%rbx,4)", "%rcx"], ["[%rax+%rbx*4+0x8]", "%rcx"]], [format(a0 + 5, "x"), "ret", [], []]]
+            pattern = [{"mov": [{"$deref": {"main_reg": "rax", "register_multiplier": "rbx", "constant_multiplier": 4, "constant_offset": "0x8"}}]}]
+        else:
+            L = [[format(a0, "x"), "add", ["$0x5", "%rax"], ["0x5", "%rax"]], [format(a0 + 4, "x"), "mov", ["0x8(%rax)", "%rcx"], ["[%rax+0x8]", "%rcx"]], [format(a0 + 8, "x"), "ret", [], []]]
+            pattern = [{"add": ["5", "rax"]}, {"mov": [{"$deref": {"main_reg": "rax", "constant_offset": "0x8"}}]}]
+        input_path = sc.write("c17.s", render(att_view(L)))
+    doc = jasm_io.make_doc(pattern, config=base_cfg, macros=base_macros)
     rule_path = sc.write("c17_rule.yaml", jasm_io.rule_text(doc))
     base = jasm_io.match_files(rule_path, input_path, mode="list", search="all", binary=binary)
     if base[0] != "ok" or not base[1]:
